@@ -74,9 +74,9 @@ impl Prop for C08 {
     }
     fn runs(&self, tier: &str) -> u64 {
         if tier == "thorough" {
-            12_000_000
+            30_000_000
         } else {
-            400_000
+            800_000
         }
     }
     fn gen(&self, seed: u64) -> Scenario {
